@@ -1,9 +1,12 @@
 use crate::runner::Property;
+pub mod c02;
 pub mod c03;
+pub mod c04;
+pub mod c08;
 pub mod c09;
 
 pub fn all() -> Vec<Property> {
-    vec![c03::property(), c09::property()]
+    vec![c02::property(), c03::property(), c04::property(), c08::property(), c09::property()]
 }
 pub fn get(id: &str) -> Option<Property> {
     all().into_iter().find(|p| p.id == id)
